@@ -445,6 +445,30 @@ impl<'a> Runner<'a> {
     }
 
     /// Refresh the tracker's view of the stored snapshot from the storage (quiescent point).
+    /// Time passes (or the clock is stepped back): rewrite the stored snapshot of client `c` with a
+    /// time stamp moved by `days_older` days, through the public storage API.
+    fn shift_snapshot_time(&mut self, c: usize, days_older: i64) {
+        let id = self.clients[c].id;
+        let done = (|| -> anyhow::Result<bool> {
+            let mut t = self.subj.storage.txn(id)?;
+            let Some(cl) = t.get_client()? else { return Ok(false) };
+            let Some(sn) = cl.snapshot else { return Ok(false) };
+            let Some(data) = t.get_snapshot_data(sn.version_id)? else { return Ok(false) };
+            let ts = sn.timestamp - chrono::Duration::days(days_older);
+            t.set_snapshot(taskchampion_sync_server_core::Snapshot { version_id: sn.version_id, timestamp: ts, versions_since: sn.versions_since }, data)?;
+            t.commit()?;
+            Ok(true)
+        })();
+        match done {
+            Ok(true) => {
+                self.cov.hit(format!("snapshot-time-shifted:{}", if days_older < 0 { "ahead-of-clock" } else if days_older >= 90 { "months-older" } else { "days-older" }));
+                self.refresh_snapshot(c);
+            }
+            Ok(false) => {}
+            Err(e) => self.log.push(format!("shift_snapshot_time: {e:#}")),
+        }
+    }
+
     fn refresh_snapshot(&mut self, c: usize) {
         let rec = self.client_record(c);
         let id = self.clients[c].id;
@@ -834,6 +858,7 @@ impl<'a> Runner<'a> {
                 std::thread::sleep(std::time::Duration::from_millis(1100));
                 vec![]
             }
+            OpKind::ShiftSnapshotTime { .. } => vec![],
             OpKind::ResendStale { k, j } => {
                 let ch = &self.clients[op.client].chain;
                 if ch.is_empty() {
@@ -894,6 +919,9 @@ impl<'a> Runner<'a> {
             }
             let c = op.client;
             self.cur_client = c;
+            if let OpKind::ShiftSnapshotTime { days_older } = &op.kind {
+                self.shift_snapshot_time(c, *days_older);
+            }
             // a request the HTTP layer refuses on its own, from a client the server has not seen yet,
             // right before that client's next real request (which must be answered as for a
             // never-seen client)
